@@ -44,9 +44,10 @@ def make_class(r):
     base_ns = {}
     base_ann = {}
     n = r.choice([1, 2, 3, 4, 5])
+    members_shared = {}
     for i in range(n):
         name = f"m{i}"
-        kind = r.choice(["flat", "dotted", "dotted", "default", "dataset", "const", "inherited", "dispatching", "section"])
+        kind = r.choice(["flat", "dotted", "dotted", "default", "dataset", "const", "inherited", "dispatching", "section", "derived", "derived"])
         target_ns, target_ann = (base_ns, base_ann) if kind == "inherited" else (ns, ann)
         if kind in ("flat", "inherited"):
             key = r.choice(FLAT)
@@ -73,6 +74,20 @@ def make_class(r):
 
             target_ns[name] = dataset(body)
             members[name] = ("ds", [k1, k2])
+        elif kind == "derived":
+            # several members derived from ONE dataset (they share its store) with different pre-set / default options
+            if "shared" not in members_shared:
+                k1, k2 = r.choice(FLAT), r.choice(DOTTED)
+
+                def shared_body(a=Option(k1, "f-dflt"), b=Option(k2, "d-dflt")):
+                    return ("shared", a, b)
+
+                members_shared["shared"] = (dataset(shared_body), k1, k2)
+            shared, k1, k2 = members_shared["shared"]
+            how = r.choice(["with_default_options", "with_default_options", "with_options", "itself"])
+            preset = U.set_path({}, r.choice([k1, k2]), r.choice([10, 20, "p", None]))
+            target_ns[name] = shared if how == "itself" else getattr(shared, how)(preset)
+            members[name] = ("dynamic", [k1, k2])
         elif kind == "dispatching":
             # a dataset whose key set depends on an option VALUE (the overload selected by D reads another key)
             k1, k2 = r.choice(DOTTED), r.choice(FLAT)
